@@ -426,7 +426,9 @@ func (_this *Writer) WriteBigFloat(value *big.Float) {
 		return
 	}
 	asFloat, accuracy := value.Float64()
-	if accuracy == big.Exact && asFloat == 0 {
+	if accuracy == big.Exact {
+		// Same text as the same value given as a float64, which is how the
+		// decoder reports it.
 		_this.WriteFloat(asFloat)
 		return
 	}
